@@ -182,6 +182,11 @@ func TestVerifC18LegacyRewriteSignatures(t *testing.T) {
 			}
 		}
 		nontrivial := !validSent || fedgen.CountSigned(sent) > 0
+		for i := range labels {
+			if labels[i] != "legacy" {
+				labels[i] = "legacy:" + labels[i]
+			}
+		}
 		stats.Case(stats.FP("legacy", sent, expect, field, clusterID), nontrivial, labels...)
 		if stats.WantSample("legacy") {
 			stats.Sample("legacy", map[string]interface{}{"expect": expect, "answer": ansKind, "detail": detail, "sent": sent, "err": fmt.Sprint(rerr)})
